@@ -48,6 +48,7 @@ type Rec struct {
 	Uses    int    `json:"uses,omitempty"`
 	Mallocs uint64 `json:"mallocs,omitempty"`
 	Bytes   uint64 `json:"bytes,omitempty"`
+	CPUus   uint64 `json:"cpu_us,omitempty"` // CPU time of the measured call (fp kind)
 	Equiv   int64  `json:"equiv,omitempty"`
 	IRLen   int    `json:"irlen,omitempty"`
 	FP      string `json:"fp,omitempty"`
@@ -87,6 +88,16 @@ func measure(f func()) (mallocs, bytes uint64) {
 	f()
 	runtime.ReadMemStats(&b)
 	return b.Mallocs - a.Mallocs, b.TotalAlloc - a.TotalAlloc
+}
+
+// cpuMicros: CPU time (user+system) this process has consumed so far. It measures work done,
+// not elapsed time: a loaded machine makes a call take longer, not cost more.
+func cpuMicros() uint64 {
+	var ru syscall.Rusage
+	if syscall.Getrusage(syscall.RUSAGE_SELF, &ru) != nil {
+		return 0
+	}
+	return uint64(ru.Utime.Sec+ru.Stime.Sec)*1_000_000 + uint64(ru.Utime.Usec+ru.Stime.Usec)
 }
 
 func fnSize(fn *ssa.Function) (instrs, blocks, uses int) {
@@ -277,9 +288,14 @@ func (c *childState) runCase(idx int, cs Case) {
 			var res diff.FingerprintResult
 			// FingerprintSource above was the warm-up call; two measured calls, the smaller counts.
 			for rep := 0; rep < 2; rep++ {
+				c0 := cpuMicros()
 				m, by := measure(func() { res = diff.GenerateFingerprint(fn, ir.DefaultLiteralPolicy, false) })
+				cpu := cpuMicros() - c0
 				if rep == 0 || m < rec.Mallocs {
 					rec.Mallocs, rec.Bytes = m, by
+				}
+				if rep == 0 || cpu < rec.CPUus {
+					rec.CPUus = cpu
 				}
 			}
 			rec.FP = res.Fingerprint
